@@ -31,8 +31,10 @@ func findAlias(v reflect.Value, lo, hi uintptr, depth int) string {
 		}
 	case reflect.Slice:
 		if v.Type().Elem().Kind() == reflect.Uint8 {
-			if v.Len() > 0 && in(v.Pointer(), v.Cap()) {
-				return fmt.Sprintf("byte slice %x", v.Bytes())
+			// capacity counts: an empty slice whose spare capacity lies in the buffer
+			// lets the next append or decode write into it
+			if v.Cap() > 0 && in(v.Pointer(), v.Cap()) {
+				return fmt.Sprintf("byte slice %x (len %d cap %d)", v.Bytes(), v.Len(), v.Cap())
 			}
 			return ""
 		}
@@ -170,5 +172,131 @@ func runC11(c *Ctx) {
 		fuel := tc.fuel(valueDepth(v))
 		c.add(fmt.Sprintf("KMarshal %s %s %s false %s", tc.head(fuel), coqVal(v), coqBytes(prefix), coqBytes(saved)), desc, shapeClass(tc.T, 3)+"/"+tc.Cfg.String(), hasContainerAndNonZero(v))
 		c.count("kind_" + tc.T.Kind().String())
+	}
+	runC11History(c)
+}
+
+// present-but-empty byte slices and strings (only written behind a pointer, as a
+// slice element or at top level) next to non-empty ones
+type EmptyBytes struct {
+	B  *[]byte            `plenc:"1"`
+	L  [][]byte           `plenc:"2"`
+	S  *string            `plenc:"3"`
+	LS []string           `plenc:"4"`
+	M  map[string]*[]byte `plenc:"5"`
+	P  []byte             `plenc:"6"`
+}
+
+func (g *ValGen) emptyBytesVal(r *RNG) EmptyBytes {
+	bs := func() []byte {
+		if r.Chance(50) {
+			return []byte{}
+		}
+		return randBytes(r, 1+r.Intn(40))
+	}
+	var e EmptyBytes
+	if r.Chance(85) {
+		b := bs()
+		e.B = &b
+	}
+	for i := r.Intn(4); i > 0; i-- {
+		e.L = append(e.L, bs())
+	}
+	if r.Chance(70) {
+		x := string(bs())
+		e.S = &x
+	}
+	for i := r.Intn(3); i > 0; i-- {
+		e.LS = append(e.LS, string(bs()))
+	}
+	if r.Chance(50) {
+		e.M = map[string]*[]byte{}
+		for i := r.Intn(3); i > 0; i-- {
+			b := bs()
+			e.M[string(randBytes(r, r.Intn(3)))] = &b
+		}
+	}
+	if r.Chance(50) {
+		e.P = bs()
+	}
+	return e
+}
+
+// runC11History: several decodes into ONE target, every input kept; after each step
+// no earlier input has changed and the target shares memory (capacity included) with
+// none of them; at the end every input is overwritten and the target must not move.
+func runC11History(c *Ctx) {
+	vg := &ValGen{r: c.rng}
+	tEmpty := reflect.TypeOf(EmptyBytes{})
+	for h := 0; h < scale(c, 150, 4000); h++ {
+		cfg := randCfg(c)
+		var tc *TypeCase
+		special := h%2 == 0
+		if special {
+			switch c.rng.Intn(4) {
+			case 0:
+				tc = newTypeCase(reflect.TypeOf([]byte{}), cfg)
+			case 1:
+				tc = newTypeCase(reflect.TypeOf([][]byte{}), cfg)
+			default:
+				tc = newTypeCase(tEmpty, cfg)
+			}
+		} else {
+			tc = pickType(c, cfg, 1+c.rng.Intn(2))
+		}
+		target := reflect.New(tc.T)
+		var inputs, copies [][]byte
+		desc := fmt.Sprintf("alias-history cfg=%s type=%s", tc.Cfg, tc.T)
+		steps := 2 + c.rng.Intn(3)
+		for k := 0; k < steps; k++ {
+			var v reflect.Value
+			switch {
+			case tc.T == tEmpty:
+				v = reflect.New(tEmpty).Elem()
+				v.Set(reflect.ValueOf(vg.emptyBytesVal(c.rng)))
+			case tc.T.Kind() == reflect.Slice && tc.T.Elem().Kind() == reflect.Uint8:
+				v = reflect.New(tc.T).Elem()
+				if c.rng.Bool() {
+					v.SetBytes(randBytes(c.rng, 1+c.rng.Intn(30)))
+				}
+			default:
+				v = vg.Value(tc.T, 2)
+			}
+			data, err := tc.P.Marshal(nil, v.Addr().Interface())
+			if err != nil {
+				break
+			}
+			in := make([]byte, len(data), len(data)+8+c.rng.Intn(24))
+			copy(in, data)
+			c.crumb(fmt.Sprintf("%s step %d data=%x", desc, k, data))
+			if err := tc.P.Unmarshal(in, target.Interface()); err != nil {
+				break
+			}
+			inputs = append(inputs, in)
+			copies = append(copies, append([]byte{}, data...))
+			for j := range inputs {
+				if string(inputs[j]) != string(copies[j]) {
+					c.native = append(c.native, NativeViolation{Case: fmt.Sprintf("%s step %d data=%x", desc, k, data), Class: "unmarshal-modifies-input",
+						What: fmt.Sprintf("decode number %d into the same target changed the input of decode number %d: %x -> %x", k, j, copies[j], inputs[j])})
+					copy(inputs[j], copies[j])
+				}
+				lo, hi := rangeOf(inputs[j])
+				if m := findAlias(target.Elem(), lo, hi, 0); m != "" {
+					c.native = append(c.native, NativeViolation{Case: fmt.Sprintf("%s step %d data=%x", desc, k, data), Class: "decoded-aliases-input",
+						What: fmt.Sprintf("after decode number %d the target shares memory with the input of decode number %d: %s", k, j, m)})
+				}
+			}
+			c.count("history_decodes")
+		}
+		snap := coqVal(target.Elem())
+		for _, in := range inputs {
+			full := in[:cap(in)]
+			for j := range full {
+				full[j] = 0x5a
+			}
+		}
+		if coqVal(target.Elem()) != snap {
+			c.native = append(c.native, NativeViolation{Case: desc, Class: "decoded-aliases-input", What: "overwriting the input buffers of earlier decodes changed the target"})
+		}
 	}
 }
